@@ -70,6 +70,7 @@ def oracle_fit(ctx, forced=None):
     """fits with gain-bound supply rates for which P = I is a workable start; the dissipation inequality is checked
     along random trajectories with the returned (coef_, P_)"""
     rng = ctx.rng
+    snap = ctx.snap()
     nx, nu = rng.randint(1, 3), rng.randint(1, 2)
     X, kw, _, _ = lc.lin_data(rng, nx, nu, radius=rng.choice([0.5, 0.8]), noise=0.02)
     g = rng.choice([1.5, 2.0, 4.0])
@@ -85,7 +86,8 @@ def oracle_fit(ctx, forced=None):
     reg = lmi.LmiEdmdDissipativityConstr(alpha=rng.choice([0, 0.1]), supply_rate=Xi, max_iter=rng.choice([1, 2, 4]),
                                          solver_params=dict(lc.SOLVER))
     refit = rng.random() < 0.35 or forced is not None
-    case = {'nx': nx, 'nu': nu, 'gain': g, 'mixed': mixed, 'Xi': Xi.tolist(), 'X': X.tolist(), 'refit': refit}
+    case = {'nx': nx, 'nu': nu, 'gain': g, 'mixed': mixed, 'Xi': Xi.tolist(), 'X': X.tolist(), 'refit': refit,
+            'replay': {'rng': snap, 'forced': forced}}
     try:
         if refit:
             # the estimator was used before with a much looser supply rate; the requested one is set afterwards
@@ -209,5 +211,14 @@ def run(ctx):
 
 
 def replay(ctx, path):
-    print(open(path).read()[:3000])
-    return 1
+    """re-execute the oracle call that produced the replay (same PRNG state, same forced arguments)"""
+    obj = json.load(open(path))
+    r = (obj.get('case') or {}).get('replay') if isinstance(obj.get('case'), dict) else None
+    print(json.dumps({k: v for k, v in obj.items() if k != 'case'}, indent=1)[:1500])
+    if not r:
+        print('this replay carries no re-executable oracle call (broken proof / correspondence: see "broken")')
+        return 1
+    ctx.restore(r['rng'])
+    why, case, note = oracle_fit(ctx, forced=None if r['forced'] is None else tuple(r['forced']))
+    print('oracle now:', why or 'property holds on this input', '' if note is None else f'({note})')
+    return 1 if why else 0
